@@ -167,6 +167,70 @@ def setop_obligations(rep):
             rep.proved(oid, 'pysym', f'{kw} of {ops}', function=FN, clause=clause)
         else:
             rep.failed(oid, 'pysym', f'rendered as {kw} of {ops}, expected {want} of [t, u]', function=FN, clause=clause, replay=replay_exec(sql))
+    # chains of three operands: the rendered compound structure (possibly flattened by the renderer) must denote what the parsed tree denotes,
+    # decided by bag semantics over all small bags (values 1, 2 with multiplicity <= 2) for every pair of operators and ALL flags
+    from collections import Counter
+    from mindsdb_sql.parser import ast as A_
+
+    def bag(op, unique, X, Y):
+        X, Y = Counter(X), Counter(Y)
+        r = X + Y if op == 'union' else (X & Y if op == 'intersect' else (X - Y if not unique else Counter({k: 1 for k in X if k not in Y})))
+        if unique:
+            r = Counter({k: 1 for k in r if r[k] > 0})
+        return +r
+
+    def den_ast(n, env):
+        if isinstance(n, (A_.Union, A_.Except, A_.Intersect)):
+            return bag(type(n).__name__.lower(), bool(n.unique), den_ast(n.left, env), den_ast(n.right, env))
+        return Counter(env[str(n.from_table.parts[-1])])
+
+    def den_sa(st, env):
+        while type(st).__name__ not in ('CompoundSelect', 'Select') and hasattr(st, 'element'):
+            st = st.element
+        if type(st).__name__ == 'CompoundSelect':
+            kw = str(st.keyword).split('.')[-1]
+            op, uniq = kw.replace('_ALL', '').lower(), not kw.endswith('_ALL')
+            items = [den_sa(x, env) for x in st.selects]
+            acc = items[0]
+            for it in items[1:]:
+                acc = bag(op, uniq, acc, it)
+            return acc
+        while not hasattr(st, 'get_final_froms') and hasattr(st, 'element'):
+            st = st.element
+        return Counter(env[list(st.get_final_froms())[0].name])
+    bags = [(), (1,), (1, 1), (2,), (1, 2), (1, 1, 2), (1, 2, 2)]
+    flavours = [(o_, a_) for o_ in ('UNION', 'INTERSECT', 'EXCEPT') for a_ in (False, True)]
+    for (o1, a1), (o2, a2) in itertools.product(flavours, flavours):
+        oid = f'C06.setop.chain.{o1}{"_ALL" if a1 else ""}.{o2}{"_ALL" if a2 else ""}'
+        sql = f'select a from t {o1}{" ALL" if a1 else ""} select a from u {o2}{" ALL" if a2 else ""} select a from w'
+        clause = 'the compound select built for a chain of three operands denotes the same bag as the parsed tree, for all bags over two values with multiplicity <= 2'
+        try:
+            r, stmt, q = stmt_of(sql)
+            bad = None
+            for X in bags:
+                for Y in bags:
+                    for Z in bags:
+                        env = {'t': X, 'u': Y, 'w': Z}
+                        if den_ast(q, env) != den_sa(stmt, env):
+                            bad = (X, Y, Z, den_ast(q, env), den_sa(stmt, env))
+                            break
+                    if bad:
+                        break
+                if bad:
+                    break
+        except Exception as e:
+            from sqlalchemy.exc import SQLAlchemyError
+            if isinstance(e, (NotImplementedError, SQLAlchemyError)):
+                rep.proved(oid, 'pysym', f'refused ({type(e).__name__}) rather than mistranslated', function=FN, clause=clause)
+            else:
+                rep.failed(oid, 'pysym', f'{type(e).__name__}: {e}'[:150], function=FN, clause=clause, replay=None)
+            continue
+        if bad is None:
+            rep.proved(oid, 'pysym', 'same bag for all 343 assignments', function=FN, clause=clause)
+        else:
+            X, Y, Z, want, got = bad
+            rep.failed(oid, 'pysym', f'with t={list(X)}, u={list(Y)}, w={list(Z)} the parsed tree denotes {sorted(want.elements())}, the rendered compound {sorted(got.elements())} (rendered: {" ".join(str(stmt).split())[:120]})',
+                       function=FN, clause=clause, replay={'input': sql, 'dialect': 'mindsdb', 'fires': True, 'observed': f'rendered as `{" ".join(text_of(sql).split())}`', 'expected': 'the same nesting and ALL flags'})
     # distinct / limit / offset
     for name, sql, probe in (('distinct', 'select distinct a from t', lambda s: bool(s._distinct)),
                              ('no-distinct', 'select a from t', lambda s: not s._distinct),
